@@ -43,6 +43,8 @@ def make_case(rng, i):
     # listeners that are value objects (compare equal to each other; possibly unhashable)
     spec["eq_listeners"] = rng.choice([False, False, False, True, "unhashable"])
     spec["falsy_listeners"] = rng.choice([None, None, None, None, "len", "bool"])
+    if rng.random() < 0.2:
+        spec["model_shape"] = rng.choice(["falsy_len", "falsy_bool", "libmodel"])     # a model that is falsy when the copy is taken
     listeners = [p for p in spec["providers"] if p not in ("sm", "model")]
     late = [l for l in listeners if rng.random() < 0.3]
     # late listeners must keep the engine choice stable (W7 is C12's): make them sync on sync machines
